@@ -23,7 +23,9 @@ ASSUMPTIONS = ["the frontmatter of a document is defined by an independent refer
                "read as frontmatter)"]
 
 FM_LINES = ["a: 1", "a: \"it's...\"", "- x", "# h", "", "  ", "a   ", "***", "{% t %}", "---x", "a: |", "  long long long long long long long long long long long long long long long long long long line",
-            "u2028: a b", "u2029: a b", "nel: a\u0085b", "ff: a\x0cb", "vt: a\x0bb", "fs: a\x1cb\x1dc\x1ed", "cr: a\rb", "nbsp: x", "tab:\tx"]
+            "u2028: a b", "u2029: a b", "nel: a\u0085b", "ff: a\x0cb", "vt: a\x0bb", "fs: a\x1cb\x1dc\x1ed", "cr: a\rb", "nbsp: x", "tab:\tx",
+            # appended later: other document markers of YAML and look-alikes of the delimiter
+            "...", "--- #", "----", "- --", "%YAML 1.2", "+++"]
 CLOSERS = ["---", "--- ", " ---", None]
 BODIES = ["", "prose text   here. Another sentence follows it.", "  indented prose", "# H", "- a\n- b", "```\nx\n```", "{% t %}",
           "text\n\n---\n\nmore", "it's \"q\"...", "\n\nbody after blanks", "**B**\n===", "[x]: u 't'", "---\nx\n---\nrest",
@@ -59,8 +61,8 @@ class FM(Space):
         q = tier == "quick"
         self.quick = q
         self.maxn = 2 if q else 3
-        self.opts = list(range(len(OPTS))) if q else list(range(len(OPTS)))
-        self.line_reps = [0, 1, 4, 6, 8, 12, 14, 18]
+        self.opts = [0, 2, 3, 6, 7] if q else list(range(len(OPTS)))   # quick: default, everything on (88 / 0), width 1, plaintext
+        self.line_reps = [0, 1, 4, 6, 8, 12, 14, 18, 21]
         self.floors = {"body-reformatted": 1000, "special-line-char": 500, "crlf": 1000, "unclosed": 500}
 
     def cases(self):
